@@ -93,6 +93,14 @@ func runSign(d *big.Int, aux, msg []byte, route int, mode string) string {
 	if rd.Consumed != 32 {
 		return fmt.Sprintf("Sign consumed %d bytes of aux randomness, expected 32", rd.Consumed)
 	}
+	if len(msg) == 0 { // the empty message as a nil slice is the same message
+		if sigN, err := sk.Sign(sc.New(), nil, nil); err != nil || !bytes.Equal(sigN, want) {
+			return fmt.Sprintf("Sign with the empty message passed as a nil slice gives %x (err=%v), BIP-340 Sign = %x", sigN, err, want)
+		}
+		if !sk.PublicKey().Verify(nil, want) {
+			return "the signature of the empty message does not verify when the message is passed as a nil slice"
+		}
+	}
 	if !bytes.Equal(m, msg) {
 		return "message modified"
 	}
@@ -234,6 +242,17 @@ func runDerivePub(q ref.Pt, z *big.Int) string {
 	b[0] ^= 1
 	if m := checkPubKey(k, q); m != "" {
 		return "after caller mutation: " + m
+	}
+	// ... and what it passed in: the point (later reused as an accumulator) and the ECDSA key's point copy
+	p.Double(p)
+	p.Negate(p)
+	ep := epk.Point()
+	ep.Double(ep)
+	if m := checkPubKey(k, q); m != "" {
+		return "after the caller reused the point it had passed to the from-point constructor: " + m
+	}
+	if m := checkPubKey(k2, q); m != "" {
+		return "after the caller reused the point of the ECDSA key: " + m
 	}
 	return ""
 }
